@@ -134,7 +134,7 @@ func CoqOpt(some bool, v string) string {
 // Add appends (id, model expression, observed value) and returns the id.
 func (c *CaseFile) Add(model, observed string) int {
 	id := len(c.entries)
-	c.entries = append(c.entries, fmt.Sprintf(" (%d%%nat, %s, %s) ::", id, model, observed))
+	c.entries = append(c.entries, fmt.Sprintf(" (%d%%N, %s, %s) ::", id, model, observed)) // ids in N: unary nat literals are slow to parse
 	return id
 }
 func (c *CaseFile) Len() int { return len(c.entries) }
@@ -168,7 +168,7 @@ func (c *CaseFile) Write(dir, header, ty, eqb string) error {
 			}
 			name := fmt.Sprintf("chunk%d", ck)
 			names = append(names, name)
-			out.WriteString("Definition " + name + " : list (nat * (" + ty + ") * (" + ty + ")) :=\n")
+			out.WriteString("Definition " + name + " : list (BinNums.N * (" + ty + ") * (" + ty + ")) :=\n")
 			out.WriteString(strings.Join(c.entries[a:b], "\n"))
 			out.WriteString(" nil.\n")
 		}
